@@ -124,6 +124,9 @@ type StackCase struct {
 	BodyKind string   `json:"bodyKind"` // none, nobody, replayable, custom-getbody, oneshot
 	Size     int      `json:"size"`
 	Unknown  bool     `json:"unknownLength,omitempty"`
+	// Undeclared: ContentLength is left 0 with a non-nil Body, which is what
+	// http.NewRequest produces for any reader it does not know (length unknown)
+	Undeclared bool `json:"undeclaredLength,omitempty"`
 	MaxRetry int      `json:"maxRetry"`
 	Layer    string   `json:"layer"` // auth+retry, retry, auth
 	// Warm: an earlier request already cached a bearer token for the scope the
@@ -146,6 +149,7 @@ func genStack(t *rapid.T) StackCase {
 	c.BodyKind = rapid.SampledFrom([]string{"none", "nobody", "replayable", "replayable", "custom-getbody", "oneshot", "oneshot"}).Draw(t, "bodyKind")
 	c.Size = rapid.SampledFrom([]int{0, 1, 17, 4096, 70000, 262144}).Draw(t, "size")
 	c.Unknown = rapid.IntRange(0, 3).Draw(t, "unknown") == 0
+	c.Undeclared = !c.Unknown && rapid.IntRange(0, 3).Draw(t, "undeclared") == 0
 	c.MaxRetry = rapid.IntRange(0, 6).Draw(t, "maxRetry")
 	c.Layer = rapid.SampledFrom([]string{"auth+retry", "auth+retry", "retry", "auth"}).Draw(t, "layer")
 	if c.Layer != "retry" && rapid.Bool().Draw(t, "warm") {
@@ -347,6 +351,9 @@ func runStackInner(c StackCase) (res vt.Result, fail *vt.Fail) {
 	if c.Unknown && hasBody && c.BodyKind != "replayable" {
 		req.ContentLength = -1
 	}
+	if c.Undeclared && hasBody && c.BodyKind != "replayable" {
+		req.ContentLength = 0
+	}
 	resp, derr := do(req)
 	if resp != nil {
 		resp.Body.Close()
@@ -381,7 +388,7 @@ func runStackInner(c StackCase) (res vt.Result, fail *vt.Fail) {
 		} else if !bytes.HasPrefix(payload, at.body) {
 			return res, vt.Failf("C17/resent-body-wrong", "attempt %d: the bytes the server read are not a prefix of the original body", i)
 		}
-		if at.length >= 0 && at.length != int64(len(payload)) {
+		if at.length >= 0 && at.length != int64(len(payload)) && !(at.length == 0 && c.Undeclared && c.BodyKind != "replayable") {
 			return res, vt.Failf("C17/content-length-wrong", "attempt %d declared Content-Length %d for a %d byte body", i, at.length, len(payload))
 		}
 	}
